@@ -17,12 +17,22 @@ structure CharClass where
   isLetter : Char → Bool
   isDigit : Char → Bool
   isSpace : Char → Bool
+  /-- shape of lexer.go `acceptWord` (regenerated from the source, `Gen.acceptWordAnySpace`): `false` = it
+  skips U+0020 only and wants U+0020 or the end of input after the word; `true` = it skips every `IsSpace`
+  rune and wants anything but an `IsAlphaNumeric` rune after the word -/
+  notInAnySpace : Bool := false
 
 namespace CharClass
 /-- utils.go `IsAlphabetic` -/
 def isAlphabetic (cc : CharClass) (c : Char) : Bool := c == '_' || c == '$' || cc.isLetter c
 /-- utils.go `IsAlphaNumeric` -/
 def isAlphaNumeric (cc : CharClass) (c : Char) : Bool := cc.isAlphabetic c || cc.isDigit c
+
+/-- the runes `acceptWord` skips before the word -/
+def wordBlank (cc : CharClass) (c : Char) : Bool := if cc.notInAnySpace then cc.isSpace c else c == ' '
+/-- the runes that may follow the word of `acceptWord` (the end of input always may) -/
+def wordEnd (cc : CharClass) (c : Char) : Bool :=
+  if cc.notInAnySpace then !cc.isAlphaNumeric c else c == ' '
 
 def asciiLetter (c : Char) : Bool := ('a' ≤ c && c ≤ 'z') || ('A' ≤ c && c ≤ 'Z')
 def asciiDigit (c : Char) : Bool := '0' ≤ c && c ≤ '9'
@@ -47,6 +57,10 @@ def ofRanges (letter digit space : List (Nat × Nat × Nat)) : CharClass where
 
 theorem ofRanges_asciiExact (l d s) : (ofRanges l d s).AsciiExact :=
   ⟨fun c h => by simp [ofRanges, h], fun c h => by simp [ofRanges, h], fun c h => by simp [ofRanges, h]⟩
+
+/-- the shape of `acceptWord` has no bearing on the rune classes -/
+theorem asciiExact_with {cc : CharClass} (h : cc.AsciiExact) (b : Bool) :
+    ({ cc with notInAnySpace := b } : CharClass).AsciiExact := ⟨h.letter, h.digit, h.space⟩
 
 /-- ASCII only: every rune ≥ 128 is in no class (used in examples) -/
 def ascii : CharClass := ofRanges [] [] []
